@@ -8,6 +8,7 @@ import (
 	"strings"
 
 	"github.com/cockroachdb/redact"
+	ri "github.com/cockroachdb/redact/interfaces"
 )
 
 // C06Spec: a value, a directive, a wrapper chain (outermost first), a placement.
@@ -36,8 +37,14 @@ func wrapChain(chain []string, x interface{}) interface{} {
 	return x
 }
 
+// siblings printed before the wrapper in the "AfterSafe" placement: values
+// that are safe by their type (nil and non-nil slices / maps included)
+var c06Siblings = []interface{}{ri.SafeBytes(nil), SVMap(nil), SVSlice(nil), redact.SafeString("s"), RegSlice(nil), SVMap{"k": 1}, ri.SafeBytes("ab"), SVInt(3)}
+
 func place(p string, v interface{}) interface{} {
 	switch p {
+	case "AfterSafe0", "AfterSafe1", "AfterSafe2", "AfterSafe3", "AfterSafe4", "AfterSafe5", "AfterSafe6", "AfterSafe7":
+		return []interface{}{c06Siblings[int(p[len(p)-1]-'0')], v}
 	case "Slice":
 		return []interface{}{v}
 	case "Struct":
@@ -140,6 +147,25 @@ func checkC06(s *C06Spec) Result {
 		return fail("output %s not line-safe", q(got.out))
 	}
 	open, close, glueKnown := containerGlue(s.Place, s.Dir)
+	if strings.HasPrefix(s.Place, "AfterSafe") && s.Chain[0] == "unsafe" && noTPW {
+		// the sibling printed before the wrapper is safe by its type; what is
+		// outside envelopes must be: the container with the sibling alone
+		// (minus its closing bracket), the separator, line feeds of x, the
+		// closing bracket
+		sib := c06Siblings[int(s.Place[len(s.Place)-1]-'0')]
+		alone := callRedact("Sprintf", d, []interface{}{[]interface{}{sib}})
+		o, c, _ := containerGlue("Slice", s.Dir)
+		sep := " "
+		if o != "[" {
+			sep = ", "
+		}
+		rest := delEnv(got.out)
+		head := bytes.TrimSuffix(delEnv(alone.out), []byte(c))
+		if !alone.panicked && (!bytes.HasPrefix(rest, append(append([]byte(nil), head...), sep...)) || !bytes.HasSuffix(rest, []byte(c)) ||
+			len(bytes.Trim(rest[len(head)+len(sep):len(rest)-len(c)], "\n")) != 0) {
+			return fail("output %s: outside envelopes is %s; want %s + separator + line feeds only + %q (the wrapped value after a safe sibling)", q(got.out), q(rest), q(head), c)
+		}
+	}
 	switch s.Chain[0] {
 	case "unsafe":
 		// U1: everything of x is inside envelopes
